@@ -8,9 +8,10 @@ import (
 // printer renders IR as Cadence source. qual is the prefix for names declared
 // in the contract when printing code outside of it ("C." or "").
 type printer struct {
-	sb   strings.Builder
-	ind  int
-	qual string
+	sb    strings.Builder
+	ind   int
+	qual  string // prefix of composite/event names
+	fqual string // prefix of global function names
 }
 
 func (p *printer) line(format string, args ...any) {
@@ -36,7 +37,8 @@ const ContractName = "C"
 
 // PrintContract renders the declarations as contract C.
 func PrintContract(prog *Program) string {
-	p := &printer{}
+	// inside the contract nested types are in scope, contract functions are not
+	p := &printer{fqual: ContractName + "."}
 	p.line("access(all) contract %s {", ContractName)
 	p.ind++
 	p.decls(prog)
@@ -47,7 +49,7 @@ func PrintContract(prog *Program) string {
 
 // PrintStep renders a transaction or script step importing contract C from 0x1.
 func PrintStep(s Step) string {
-	p := &printer{qual: ContractName + "."}
+	p := &printer{qual: ContractName + ".", fqual: ContractName + "."}
 	p.line("import %s from 0x1", ContractName)
 	if s.Tx {
 		p.line("transaction {")
@@ -349,7 +351,7 @@ func (p *printer) expr(e Expr) string {
 		}
 		return p.expr(e.X) + "." + e.Name
 	case Call:
-		return p.qual + e.Fn + "(" + p.args(e.Args) + ")"
+		return p.fqual + e.Fn + "(" + p.args(e.Args) + ")"
 	case CallVal:
 		return p.expr(e.F) + "(" + p.args(e.Args) + ")"
 	case Invoke:
@@ -400,7 +402,7 @@ func (p *printer) expr(e Expr) string {
 		sb.WriteByte('"')
 		return sb.String()
 	case Closure:
-		sub := &printer{ind: p.ind, qual: p.qual}
+		sub := &printer{ind: p.ind, qual: p.qual, fqual: p.fqual}
 		d := e.Decl
 		head := "fun (" + sub.params(d.Params) + ")"
 		if d.Ret != nil && d.Ret.K != KVoid {
